@@ -209,7 +209,18 @@ HANDLER_WHITELIST = {
     ("get_meta", "<bare>", "assign literal"): "stack-frame metadata for error messages only",
     ("Ocp.sys_simulator", "<bare>", "assign 0"): "CasADi API compatibility (older integrator signature)",
     ("LseGroup.__call__", "<bare>", "def logsumexp"): "CasADi API compatibility (logsumexp fallback)",
+    ("DirectMethod.fill_placeholders_T", "KeyError", "pass"): "table lookup miss: no user guess for ocp.T, the declared FreeTime guess stands (D17 repair); try body restricted to the lookup",
+    ("DirectMethod.fill_placeholders_t0", "KeyError", "pass"): "table lookup miss: no user guess for ocp.t0, the declared FreeTime guess stands (D17 repair); try body restricted to the lookup",
 }
+
+# handlers that are benign only because the guarded block is a single table lookup
+LOOKUP_ONLY = {("DirectMethod.fill_placeholders_T", "KeyError", "pass"), ("DirectMethod.fill_placeholders_t0", "KeyError", "pass")}
+
+
+def lookup_only(t):
+    """try body = one assignment from a subscript (nothing else whose KeyError could be swallowed)"""
+    return len(t.body) == 1 and isinstance(t.body[0], ast.Assign) and isinstance(t.body[0].value, ast.Subscript) \
+        and not any(isinstance(x, ast.Call) for x in ast.walk(t.body[0].value))
 
 def handler_shape(h):
     """Shape of the first statement of a handler, independent of local variable names."""
@@ -266,6 +277,8 @@ def r20_2(ctx):
                 first = norm_text(h.body[0]).split("\n")[0] if h.body else ""
                 key = (f.qualname, typ, handler_shape(h))
                 ok = reraises or key in HANDLER_WHITELIST
+                if ok and not reraises and key in LOOKUP_ONLY:
+                    ok = lookup_only(t)
                 ctx.check(ok, "%s: except %s" % (f.qualname, typ), detail="exception swallowed: %s" % first[:40],
                           expected="re-raise, or a handler of the frozen benign list", found="except %s: %s" % (typ, first[:60]), fi=f, node=h,
                           sample={"handler": key, "why": "re-raises" if reraises else HANDLER_WHITELIST.get(key)})
